@@ -197,6 +197,14 @@ def check_cart(ctx, case):
             elif sure:
                 ctx.violation(bucket("lookup_inside_box_rejected", None), {"pt": [x, y, mv], "cell": k, "flag": flags[k] if k is not None else None,
                                                                              "region_dh": float(region.dh)}, c1)
+    # ---- vector lookup of all accepted probe points at once (points in arbitrary order)
+    good = good[::-1][1::2] + good[::-1][0::2]   # not in cell order
+    if len(good) >= 2:
+        o = call(fore.get_rates, numpy.array([g[0] for g in good]), numpy.array([g[1] for g in good]), numpy.array([g[2] for g in good]))
+        if not o.ok:
+            ctx.unexpected(o, "get_rates_vector")
+        elif len(o.value) != len(good) or any(abs(float(a) - g[3]) > RT[0] * abs(g[3]) for a, g in zip(o.value, good)):
+            ctx.violation("vector_lookup_differs_from_single_lookups", {"n": len(good)})
     # ---- target_event_rates on a catalog of accepted probe points
     if good:
         cat = CSEPCatalog(data=[("e%d" % i, i, g[1], g[0], 1.0, g[2]) for i, g in enumerate(good)])
